@@ -345,6 +345,15 @@ def check_state(prop: str, res: Result, repo: Repo, funcs: List[FuncInfo]):
             res.ok(rule, {"site": f"{fi.where} {fi.qualname}", "why": "no attribute store on self, no global"})
 
 
+def _own_range(fi, bounds) -> bool:
+    """the two expressions are the bounds of the function's own recompute loop `for i in range(a, b)`"""
+    want = [ast.unparse(b) for b in bounds]
+    for n in fi.node.body:
+        if isinstance(n, ast.For) and isinstance(n.iter, ast.Call) and call_name(n.iter) == "range" and [ast.unparse(a) for a in n.iter.args] == want:
+            return True
+    return False
+
+
 def check_span(prop: str, res: Result, repo: Repo):
     """R-SPAN: every calculate_index / _calculate_sub_indicators range reachable from a calculation has length 1 or passes its caller's range through"""
     rule = "R-SPAN"
@@ -368,7 +377,7 @@ def check_span(prop: str, res: Result, repo: Repo):
                 pos = [a for a in c.args]
                 if len(pos) <= 1 and not any(k.arg in ("start_index", "end_index") for k in c.keywords):
                     res.ok(rule, {"site": f"{fi.where} {norm_construct(c)}", "span": "resume (calculate())"})
-                elif len(pos) == 3 and (_span_one(pos[1], pos[2]) or (fi.name == "calculate_index" and all(isinstance(a, ast.Name) and a.id in params for a in pos[1:]))):
+                elif len(pos) == 3 and (_span_one(pos[1], pos[2]) or (fi.name == "calculate_index" and (all(isinstance(a, ast.Name) and a.id in params for a in pos[1:]) or _own_range(fi, pos[1:])))):
                     res.ok(rule, {"site": f"{fi.where} {norm_construct(c)}", "span": "1 or caller's own range"}, nontrivial=f"{fi.qualname}:sub")
                 else:
                     res.fail(rule, finding(prop, rule, fi, c, "sub-indicators are recomputed over a range that is not a single index"))
